@@ -81,7 +81,8 @@ func genC0x(r *hysim.Rand, tier string, c02 bool) *hysim.Script {
 			// (last argument: how the request spells its receive rate - 0 = the decimal number)
 			sc.Ops = append(sc.Ops, hysim.Op{K: "auth", A: []int64{c, async, int64(r.Pick(0, 0, 1, 2, 2, 3)), r.Pick64(0, 0, 65536, 1000000), int64(r.Pick(0, 0, 0, 0, 1, 2, 3, 4, 5, 6, 7, 8))}})
 		case p < 45:
-			sc.Ops = append(sc.Ops, hysim.Op{K: "http", A: []int64{c, async, int64(r.Intn(len(c01Methods))), int64(r.Pick(0, 0, 0, 1, 2, 3, 4, 5)), int64(r.Pick(0, 0, 0, 1, 2, 3, 4, 5, 6)), int64(r.Intn(4)), int64(r.Pick(0, 0, 10, 300))}})
+			// (last argument: bytes of an extra request header - cookies can be large)
+			sc.Ops = append(sc.Ops, hysim.Op{K: "http", A: []int64{c, async, int64(r.Intn(len(c01Methods))), int64(r.Pick(0, 0, 0, 1, 2, 3, 4, 5)), int64(r.Pick(0, 0, 0, 1, 2, 3, 4, 5, 6)), int64(r.Intn(4)), int64(r.Pick(0, 0, 10, 300)), int64(r.Pick(0, 0, 0, 0, 3000, 9000, 20000, 60000))}})
 		case p < 68:
 			sc.Ops = append(sc.Ops, hysim.Op{K: "tcp", A: []int64{c, async, int64(r.Pick(0, 1, 40, 1000)), r.Pick64(300, 1500, 4000)}})
 		case p < 88:
@@ -389,6 +390,13 @@ func (cw *c01World) runOp(c *c01Conn, oi int, op hysim.Op) {
 			hasAuth = true
 			probe = "q"
 			hdr.Set("X-Probe", probe)
+		}
+		if n := int(op.Arg(7)); n > 0 {
+			if n > 200000 {
+				n = 200000
+			}
+			hdr.Set("Cookie", "fill="+strings.Repeat("c", n))
+			x.Probe("request-with-large-header")
 		}
 		var body []byte
 		if n := int(op.Arg(6)); n > 0 && method != "GET" && method != "HEAD" {
